@@ -194,7 +194,10 @@ def cli_written_out(oc):
                                    TJ.to_text(B.story_append([B.story('C', [B.p('na\u00efve')])], message_id='3')), TJ.to_text(B.ro_delete(message_id='4'))],
             'beyond latin-1': [TJ.to_text(B.ro_doc([B.story('A', [B.p('\u20ac 5, \u201cquoted\u201d, \u041a\u0438\u0435\u0432, \U0001d11e')])], message_id='1')),
                                TJ.to_text(B.story_insert('A', [B.story('A', [])], message_id='2')), TJ.to_text(B.ro_delete(message_id='3'))],
-            'plain ascii': [TJ.to_text(B.ro_doc([B.story('A', [B.item('a1')])], message_id='1')), TJ.to_text(B.ro_delete(message_id='2'))]}
+            'plain ascii': [TJ.to_text(B.ro_doc([B.story('A', [B.item('a1'), B.p('{{HEADLINE}} and {{0}} are text like any other')])], message_id='1', slug='{{slug}}')), TJ.to_text(B.ro_delete(message_id='2'))],
+            'a failing and a late message': [TJ.to_text(B.ro_doc([B.story('A', [B.item('a1')])], message_id='1')), TJ.to_text(B.item_replace('A', 'nowhere', [B.item('n')], message_id='2')),
+                                             TJ.to_text(B.story_append([B.story('B', [B.p('{{HEADLINE}} {json: 1} 100%')])], message_id='3')), TJ.to_text(B.ro_delete(message_id='4')),
+                                             TJ.to_text(B.story_append([B.story('LATE', [])], message_id='5'))]}
     root = tempfile.mkdtemp(prefix='mrm-c14-cli-')
     try:
         for label, docs in sets.items():
@@ -209,6 +212,7 @@ def cli_written_out(oc):
                 mc = MosCollection.from_files(fns)
                 mc.merge(strict=False)
             want = TJ.to_tree(mc.ro.xml)
+            codes = {}
             for enc in ('utf-8', 'latin-1', 'ascii'):
                 for to_file in (False, True):
                     outp = os.path.join(root, 'out.xml')
@@ -222,6 +226,12 @@ def cli_written_out(oc):
                                         stdout=subprocess.PIPE, stderr=subprocess.PIPE, env=env, timeout=120)
                     oc.evaluations += 1
                     oc.count('cli-written-out')
+                    codes[(enc, to_file)] = pr.returncode
+                    if to_file and codes.get((enc, False)) == 0 and pr.returncode != 0:
+                        oc.failing.append({'kind': 'roundtrip-cli', 'label': f'merge -o file fails where merge to stdout succeeds, stdout encoding {enc}, {label}', 'docs': docs,
+                                           'encoding': enc, 'to_file': True, 'state_has_cr': False,
+                                           'spec': 'the running order that can be written to stdout can be written to a file (the file is UTF-8 whatever the terminal is)',
+                                           'impl': {'status': pr.returncode, 'stderr': pr.stderr[-300:].decode('latin-1')}})
                     if pr.returncode != 0:
                         continue
                     oc.in_domain += 1
